@@ -1,7 +1,7 @@
 //! Kani harnesses over postcard-dyn (C17, C18).
 #![allow(dead_code, unused_imports, unused_macros, unused_mut, static_mut_refs, clippy::all)]
 
-#[path = "../../schema/src/arena.rs"]
+#[path = "../../common/arena.rs"]
 pub mod arena;
 
 #[cfg(kani)]
